@@ -210,8 +210,29 @@ def decimal_tie_cases(draw):
                 value=v)
 
 
+@st.composite
+def wide_choosers(draw):
+    """A player state with 9-16 actions over lotteries worth 1/4, 1/2 or 3/4: wide ties whose members sit at
+    positions beyond the first eight (below a coin, so that the state is not the initial one in half of the cases)."""
+    owner = draw(st.sampled_from((P1, P2)))
+    k = draw(st.integers(9, 16))
+    vals = [draw(st.sampled_from((0.25, 0.5, 0.75))) for _ in range(k)]
+    below = draw(st.booleans())
+    # states: [0 coin ->] chooser, k lotteries, goal, sink
+    first = 1 if below else 0
+    n = first + 1 + k + 2
+    goal, sink = n - 2, n - 1
+    players = ([PR] if below else []) + [owner] + [PR] * (k + 2)
+    tl = ([[(0.5, 1), (0.5, sink)]] if below else []) + [[(f"a{i}", first + 1 + i) for i in range(k)]]
+    tl += [[(v, goal), (1 - v, sink)] for v in vals]
+    tl += [[(1, goal)], [(1, sink)]]
+    return dict(game=dict(rewards=[0] * n, players=players, transition_list=tl, final_states=[goal]), api="solve")
+
+
 def phases(tier):
-    return [Phase("decimal-ties", strategy=decimal_tie_cases, examples=(300, 8000),
+    return [Phase("wide-player-states", strategy=wide_choosers, examples=(150, 5000),
+                  note="9-16 actions with ties among three values"),
+            Phase("decimal-ties", strategy=decimal_tie_cases, examples=(300, 8000),
                   note="equal rational values reached through different floating-point sums (decimal probabilities)"),
             Phase("deep-corridors", enum=corridor_cases,
                   note="values that travel one state per sweep over 60-1030 states; exact values known by construction"),
